@@ -169,7 +169,7 @@ bool same_as(const Snapshot& s, const char** why) {
   for (size_t i = 0; i < now.size(); i++) {
     if (now[i].ptr != s.blocks[i].ptr || now[i].serial != s.blocks[i].serial) { *why = "live-block set changed (a prior block was released or replaced)"; return false; }
     if (now[i].size != s.blocks[i].size) { *why = "size of a prior block changed"; return false; }
-    if (memcmp(now[i].ptr, s.bytes[i].data(), now[i].size) != 0) { *why = "byte image of a block that was live before the call changed"; return false; }
+    if (now[i].size && memcmp(now[i].ptr, s.bytes[i].data(), now[i].size) != 0) { *why = "byte image of a block that was live before the call changed"; return false; }
   }
   return true;
 }
